@@ -250,12 +250,19 @@ func extractTermsAux(ctx *Context, x interface{}, terms StringSet, depth int) {
 		for _, y := range vv {
 			extractTermsAux(ctx, y, terms, depth+1)
 		}
-	case []string:
-		// ToDo: Contemplate use of ISlice.
-		for _, s := range vv {
-			extractTermsAux(ctx, s, terms, depth+1)
-		}
+	case Map:
+		// (a Go caller's nested Map)
+		extractTermsAux(ctx, map[string]interface{}(vv), terms, depth)
 	default:
+		// Other slices: []string, and what Javascript hands over
+		// for a homogeneous array ([]map[string]interface{},
+		// [][]string, ...).  After a reload they all are
+		// []interface{}, so they have to be indexed alike.
+		if ys, ok := ISlice(x); ok {
+			for _, y := range ys.([]interface{}) {
+				extractTermsAux(ctx, y, terms, depth+1)
+			}
+		}
 		// We don't index what we don't understand -- or what
 		// we otherwise choose to ignore.  Numbers, for
 		// example.
